@@ -114,7 +114,15 @@ class PASHARungSystem(PromotionRungSystem):
         )
         # if we try to maximize the objective, we need to reverse the ranking
         reverse = self._mode == "max"
-        sorted_top_rung = sorted(rankings[0], key=lambda e: e[1], reverse=reverse)
+        # with several brackets, a trial can enter the top rung without an
+        # entry in the previous one: rankings are compared on common trials
+        previous_rung_keys = set([e[0] for e in rankings[1]])
+        corresponding_top_rung_trials = filter(
+            lambda e: e[0] in previous_rung_keys, rankings[0]
+        )
+        sorted_top_rung = sorted(
+            corresponding_top_rung_trials, key=lambda e: e[1], reverse=reverse
+        )
         sorted_previous_rung = sorted(
             corresponding_previous_rung_trials, key=lambda e: e[1], reverse=reverse
         )
